@@ -79,6 +79,19 @@ int main(void) {
 		else if (!strcmp(cmd, "own")) { sscanf(args, "%d", &hid); p_semaphore_take_ownership(sem[hid]); say("ok"); }
 		else if (!strcmp(cmd, "free")) { sscanf(args, "%d", &hid); p_semaphore_free(sem[hid]); sem[hid] = NULL; say("ok"); }
 		else if (!strcmp(cmd, "acq_bg") || !strcmp(cmd, "lock_bg")) { Bg *b = calloc(1, sizeof *b); pthread_t t; sscanf(args, "%d %31s", &b->hid, b->tag); b->kind = cmd[0] == 'a' ? 0 : 1; pthread_create(&t, NULL, bg_fn, b); pthread_detach(t); say("ok"); }
+		else if (!strcmp(cmd, "shmchurn")) {     /* shmchurn <name> <iters> <ownpct>: p_shm_new(4096) / [take_ownership] / touch / free in a loop */
+			int iters, ownpct, i, fails = 0; unsigned x = (unsigned)getpid() * 2246822519u;
+			if (sscanf(args, "%1023s %d %d", name, &iters, &ownpct) != 3) { say("err"); continue; }
+			for (i = 0; i < iters; i++) {
+				PShm *sm = p_shm_new(name, 4096, P_SHM_ACCESS_READWRITE, NULL);
+				if (!sm) { fails++; continue; }              /* the name vanished or was half-created at that moment: allowed to fail */
+				x = x * 1103515245u + 12345u;
+				if ((int)((x >> 16) % 100) < ownpct) p_shm_take_ownership(sm);
+				if (p_shm_get_size(sm) >= 8) ((volatile char *)p_shm_get_address(sm))[7] = (char)i;
+				p_shm_free(sm);
+			}
+			say("ok %d %d", iters, fails);
+		}
 		else if (!strcmp(cmd, "churn")) {     /* churn <name> <iters> <ownpct>: open(OPEN,1) / [take_ownership] / acquire / release / free in a loop */
 			int iters, ownpct, i, fails = 0; unsigned x = (unsigned)getpid() * 2654435761u;
 			if (sscanf(args, "%1023s %d %d", name, &iters, &ownpct) != 3) { say("err"); continue; }
